@@ -161,7 +161,7 @@ func luCase(t *vlib.T, n int, f famInfo, v int, rep string, cfg solveCfg) {
 		if !relClose(math.Exp(ld)*sign, ref, tol) {
 			t.Failf("LogDet = (%v,%v), reference det %v", ld, sign, ref)
 		}
-		condBand(t, "LU.Cond", lu.Cond(), kinf, 10, 1.01)
+		condBand(t, "LU.Cond", lu.Cond(), kinf, 3, 1.01)
 	} else {
 		bound := 1e3 * float64(n) * eps * math.Pow(math.Max(normInf(A), 1), float64(n))
 		if f.exactSing {
